@@ -13,6 +13,7 @@
 //!   exh     exhaustive response scripts up to <budget> responses (readers and writers)
 //!   totals  totals 0..=200 x constant chunk sizes x initial len/capacity combinations
 //!   utf8    UTF-8 texts split at every byte boundary, invalid sequences, String untouched
+//!   errwin  short reads that leave the window partly filled, then an error; resumed histories
 //!   fmt     write_fmt templates x writer scripts
 //!   random  <budget> random long scripts
 //!   miri    stratified sample of all of the above, sized by <budget>
@@ -510,12 +511,21 @@ fn run_rte(st: &mut St, data: &[u8], script: &[Resp], init_len: usize, cap: usiz
                 bad(st, "error-changed", format!("{e}"), format!("{}", mk_err(k)));
             } else if v.len() < init_len || v[..init_len] != initial[..] {
                 bad(st, "initial-content-changed", vh::jb(&v), vh::jb(&initial));
-            } else if v.len() - init_len > p || v[init_len..] != data[..v.len() - init_len] {
+            } else if v[init_len..] != data[..p] {
+                // everything the reader handed over before the error has to be in the buffer
+                // (std's documented contract, and what the unchanged code does): nothing of
+                // it may be dropped, nothing else appended
+                let app = &v[init_len..];
+                let what = if app.len() < p && *app == data[..app.len()] {
+                    "consumed-bytes-lost-on-error"
+                } else {
+                    "content-on-error"
+                };
                 bad(
                     st,
-                    "content-on-error",
-                    format!("appended {}", vh::jb(&v[init_len..])),
-                    format!("a prefix of {}", vh::jb(&data[..p])),
+                    what,
+                    format!("appended {} ({} bytes)", vh::jb(app), app.len()),
+                    format!("appended {} (all {p} bytes handed over before the error)", vh::jb(&data[..p])),
                 );
             }
         }
@@ -634,8 +644,21 @@ fn run_rts(st: &mut St, data: &[u8], script: &[Resp], initial: &str, cap_extra: 
                 bad(st, "error-changed", format!("{e}"), format!("{}", mk_err(k)));
             } else if sb.len() < il || &sb[..il] != initial.as_bytes() {
                 bad(st, "initial-content-changed", vh::jb(sb), vh::js(initial));
-            } else if sb.len() - il > p || sb[il..] != data[..sb.len() - il] {
-                bad(st, "content-on-error", vh::jb(&sb[il..]), format!("a prefix of {}", vh::jb(&data[..p])));
+            } else if std::str::from_utf8(&data[..p]).is_ok() {
+                // handed-over bytes are valid UTF-8 at the moment of the error: all of them are kept
+                if sb[il..] != data[..p] {
+                    let app = &sb[il..];
+                    let what = if app.len() < p && *app == data[..app.len()] {
+                        "consumed-bytes-lost-on-error"
+                    } else {
+                        "content-on-error"
+                    };
+                    bad(st, what, vh::jb(app), format!("{} (all {p} bytes handed over before the error)", vh::jb(&data[..p])));
+                }
+            } else if sb != initial.as_bytes() {
+                // invalid or incomplete tail at the moment of the error: the unchanged code (like
+                // std) rolls the String back to what it was, nothing is appended
+                bad(st, "string-changed-after-invalid-utf8", vh::jb(sb), vh::js(initial));
             }
         }
         (Ok(Err(e)), None) => {
@@ -662,6 +685,171 @@ fn run_rts(st: &mut St, data: &[u8], script: &[Resp], initial: &str, cap_extra: 
             ),
             5,
         );
+    }
+}
+
+/// Resumed history: call, Err, call again on the same reader and the same buffer, ... until Ok.
+/// After every call the buffer must be initial ++ everything the reader has handed out so far.
+fn run_resume(st: &mut St, data: &[u8], script: &[Resp], init_len: usize, cap: usize, as_string: bool) {
+    if st.expired() {
+        return;
+    }
+    let initial = initial_bytes(init_len);
+    let mut v: Vec<u8> = Vec::with_capacity(cap.max(init_len));
+    v.extend_from_slice(&initial);
+    // `data` is ASCII here, so the String form never meets invalid UTF-8
+    let mut sbuf = String::from_utf8(v.clone()).unwrap();
+    if as_string {
+        sbuf.reserve_exact(cap.saturating_sub(init_len));
+    }
+    let helper = if as_string { "read_to_string" } else { "read_to_end" };
+    let mut r = SReader::new(data, script, false);
+    let mut calls = 0u32;
+    let mut errors = 0u32;
+    let outcome;
+    loop {
+        r.end = None;
+        let before = if as_string { sbuf.len() } else { v.len() };
+        let res = if as_string {
+            vh::catch(|| r.read_to_string(&mut sbuf))
+        } else {
+            vh::catch(|| r.read_to_end(&mut v))
+        };
+        calls += 1;
+        st.evals += 1;
+        let cur: &[u8] = if as_string { sbuf.as_bytes() } else { &v };
+        let extra = format!("\"initial_len\":{init_len},\"capacity\":{cap},\"resumed_call\":{calls},");
+        let mut bad = |st: &mut St, what: &str, got: String, want: String| {
+            st.viol(
+                &format!("C15/{helper}/{what}"),
+                detail(helper, data, script, &extra, &got, &want, &r.offered),
+            );
+        };
+        let whole_ok = cur.len() == init_len + r.pos && cur[..init_len] == initial[..] && cur[init_len..] == data[..r.pos];
+        match (&res, r.end) {
+            (Err(p), _) => {
+                bad(st, "panic", p.clone(), "no panic".into());
+                outcome = "panic";
+                break;
+            }
+            (Ok(Err(e)), Some((End::Err(k), _))) if same_err(e, k) => {
+                errors += 1;
+                if !whole_ok {
+                    let lost = cur.len() < init_len + r.pos && cur.len() >= init_len && cur[init_len..] == data[..cur.len() - init_len];
+                    bad(
+                        st,
+                        if lost { "consumed-bytes-lost-on-error" } else { "content-on-error" },
+                        format!("after the error the buffer holds {} appended bytes: {}", cur.len().saturating_sub(init_len), vh::jb(&cur[init_len.min(cur.len())..])),
+                        format!("all {} bytes handed out so far: {}", r.pos, vh::jb(&data[..r.pos])),
+                    );
+                    outcome = "lost";
+                    break;
+                }
+                if calls >= 12 {
+                    outcome = "many-errors";
+                    break;
+                }
+            }
+            (Ok(Ok(n)), Some((End::Eof, _))) => {
+                if !whole_ok {
+                    bad(
+                        st,
+                        "resumed-history-not-the-concatenation",
+                        format!("{} appended bytes: {}", cur.len().saturating_sub(init_len), vh::jb(&cur[init_len.min(cur.len())..])),
+                        format!("{}", vh::jb(&data[..r.pos])),
+                    );
+                    outcome = "wrong";
+                } else if *n != cur.len() - before {
+                    bad(st, "count", format!("Ok({n})"), format!("Ok({})", cur.len() - before));
+                    outcome = "count";
+                } else {
+                    outcome = if errors > 0 { "resumed-ok" } else { "ok" };
+                }
+                break;
+            }
+            (other, end) => {
+                bad(st, "resumed-history-unexpected-result", format!("{other:?}"), format!("reader end {end:?}"));
+                outcome = "unexpected";
+                break;
+            }
+        }
+    }
+    st.bump("resumed_history_runs");
+    if errors > 0 {
+        st.bump("resumed_history_runs_with_error_then_continue");
+    }
+    let (nb, tc) = (nbucket(script.len()), tot_class(data.len()));
+    let ec = match errors {
+        0 => "e0",
+        1 => "e1",
+        _ => "e2+",
+    };
+    st.distinct(fp(&[6, u64::from(as_string), sid(nb), fmask(script), sid(tc), sid(ec), sid(outcome)]), || {
+        format!("resume/{helper}/{nb}/{}/{tc}/{ec}/{outcome}", flags(script))
+    });
+    if st.want_sample() {
+        vh::sample(
+            &format!(
+                "{{\"helper\":{},\"case\":\"resumed history\",\"script\":{},\"stream_len\":{},\"initial_len\":{init_len},\"capacity\":{cap},\"calls\":{calls},\"errors_surfaced\":{errors},\"outcome\":{}}}",
+                vh::js(helper),
+                vh::js(&script_str(script)),
+                data.len(),
+                vh::js(outcome)
+            ),
+            5,
+        );
+    }
+}
+
+/// Error inside a partly filled window: one or two short reads that do not fill the spare
+/// capacity, optional EINTR, then a non-EINTR error; window sizes around the 32-byte probe /
+/// growth thresholds, exact-fit capacities, the error also after growth and in the probe read.
+fn errwin(st: &mut St, seed: u64, shard: u64, nshards: u64, light: bool) {
+    let windows: &[usize] = if light { &[0, 2, 32, 33] } else { &[0, 1, 2, 3, 31, 32, 33, 34, 63, 64, 65] };
+    let inits: &[usize] = if light { &[0, 5] } else { &[0, 5, 32] };
+    let mut g = 0u64;
+    for &w in windows {
+        for &il in inits {
+            g += 1;
+            if g % nshards != shard % nshards {
+                continue;
+            }
+            let mut firsts = vec![1usize, 2, 31, 32, 33];
+            if w > 1 {
+                firsts.push(w - 1);
+                firsts.push(w);
+            }
+            for &k1 in &firsts {
+                for second in [0usize, 1, 30] {
+                    for eintr in [false, true] {
+                        for kind in 0..5u8 {
+                            if light && kind > 1 {
+                                continue;
+                            }
+                            let mut script = vec![Resp::Data(k1)];
+                            if second > 0 {
+                                script.push(Resp::Data(second));
+                            }
+                            if eintr {
+                                script.push(Resp::Eintr);
+                            }
+                            script.push(Resp::Fail(kind));
+                            // a second error later on, after more data
+                            script.extend([Resp::Data(7), Resp::Eintr, Resp::Fail((kind + 1) % 5)]);
+                            let used = k1 + second;
+                            for total in [used, used + 1, w, w + 1, w + 40, used + 7] {
+                                let data = data_bytes(total, mix(seed, g));
+                                run_rte(st, &data, &script, il, il + w, kind % 2 == 0);
+                                run_resume(st, &data, &script, il, il + w, false);
+                                run_resume(st, &data, &script, il, il + w, true);
+                                run_rts(st, &data, &script, if il == 0 { "" } else { "seed-é" }, w, false);
+                                st.bump("error_in_partial_window_cases");
+                            }
+                        }
+                    }
+                }
+            }
+        }
     }
 }
 
@@ -1028,6 +1216,9 @@ fn one_script_cases(st: &mut St, script: &mut Vec<Resp>, h: u64, light: bool) {
             // exact fit: capacity == initial length + stream length (probe path)
             run_rte(st, &data, script, il, il + total, !scribble);
         }
+        if script.iter().any(|r| matches!(r, Resp::Fail(_))) {
+            run_resume(st, &data, script, il, il + ex, ti == 1);
+        }
         // read_exact: exactly the stream, one more than the stream, one less
         run_rex(st, &data, script, total, scribble);
         if !light || ti == 2 {
@@ -1283,6 +1474,9 @@ fn random(st: &mut St, seed: u64, budget: u64) {
                     _ => il + r.below(300) as usize,
                 };
                 run_rte(st, &data, &script, il, cap, scribble);
+                if script.iter().any(|r| matches!(r, Resp::Fail(_))) {
+                    run_resume(st, &data, &script, il, cap, scribble);
+                }
             }
             2 => {
                 let mut text = utf8_text(total, r.next());
@@ -1323,6 +1517,7 @@ fn main() {
         "exhl" => exhaustive(&mut st, a.seed, a.budget as usize, shard, nshards, 1, true),
         "totalsl" => totals(&mut st, a.seed, shard, nshards, true),
         "utf8l" => utf8(&mut st, a.seed, shard, nshards, true),
+        "errwin" => errwin(&mut st, a.seed, shard, nshards, false),
         "fmt" => fmt_mode(&mut st, a.seed.wrapping_add(shard), a.budget),
         "random" => random(&mut st, a.seed.wrapping_add(shard), a.budget),
         "miri" => {
@@ -1336,8 +1531,10 @@ fn main() {
                 st.deadline = (secs > 0).then(|| t0 + std::time::Duration::from_millis(secs * 10 * pct));
             };
             let b = a.budget.max(1);
-            until(&mut st, 15);
+            until(&mut st, 12);
             exhaustive(&mut st, a.seed, 2, shard, nshards, 1, true);
+            until(&mut st, 22);
+            errwin(&mut st, a.seed, shard, nshards.min(8), true);
             until(&mut st, 35);
             exhaustive_long_sample(&mut st, a.seed, shard, b);
             until(&mut st, 65);
